@@ -50,6 +50,7 @@ fn main() {
         "plushy" => fam_plushy::run(&cfg),
         "push-instr" => fam_push::run_instr(&cfg),
         "push-run" => fam_push::run_run(&cfg),
+        "push-det" => fam_push::run_det(&cfg),
         "builder" => fam_builder::run(&cfg),
         "builder-probes" => fam_builder::run_probes(&cfg),
         "wsel" => fam_wsel::run(&cfg),
